@@ -537,6 +537,51 @@ def _install() -> None:
         return {"args": [ch.between(1, 4)], "kwargs": kwargs}
 
     _reg("monomial", g_monomial, lambda a, k: n.monomial(a[0], **k), "utils")
+
+    # --- arrays handed to the constructors and index utilities themselves (exponent matrices, key matrices, grids, bounds)
+    def g_raw_ctor(ch: core.Chooser) -> dict:
+        lit = gen_poly(ch.sub("a"), max_terms=4, kind="int")
+        nv = len(lit["names"])
+        exps = numpy.array(lit["exponents"], dtype="int64").reshape(len(lit["exponents"]), nv)
+        if ch.chance(0.25) and len(exps) >= 2:
+            exps[1] = exps[0]  # duplicate rows: the constructor refuses
+        dt = ch.choice(["uint32", "uint32", "int64", "uint8"])
+        names = list(lit["names"]) if ch.chance(0.8) else ["q0"] * nv  # (duplicate names are refused as well)
+        coeffs = {"seq": [A(numpy.array(col, dtype="int64").reshape(lit["shape"]), "int64") for col in lit["coefficients"]]}
+        kw = {"retain_coefficients": True} if ch.chance(0.5) else {}
+        if ch.chance(0.3):
+            kw["retain_names"] = ch.chance(0.5)
+        return {"args": [A(exps, dt), coeffs, {"tuple": names}, {"tuple": list(lit["shape"])}], "kwargs": kw}
+
+    _reg("ndpoly.raw", g_raw_ctor, lambda a, k: n.ndpoly(exponents=a[0], shape=a[3], names=a[2]), "construct", weight=1)
+    _reg("from_attributes.raw", g_raw_ctor, lambda a, k: n.polynomial_from_attributes(a[0], a[1], a[2], **k), "construct", weight=1)
+
+    def g_cross_truncate(ch: core.Chooser) -> dict:
+        d, m = ch.between(1, 3), ch.between(1, 8)
+        dt = ch.choice(["float64", "float64", "int64", "uint8"])
+        grid = numpy.array([[ch.below(6) for _ in range(d)] for _ in range(m)], dtype=dt)
+        bdt = ch.choice(["float64", "int64"])
+        bound: Any = A(numpy.array([ch.between(1, 5) for _ in range(d)], dtype=bdt), bdt) if ch.chance(0.5) else ch.between(1, 5)
+        return {"args": [A(grid, dt), bound, ch.choice([0.5, 1, 2, 4.0])], "kwargs": {}}
+
+    _reg("cross_truncate", g_cross_truncate, lambda a, k: n.cross_truncate(a[0], a[1], a[2]), "utils", weight=1)
+
+    def g_glexsort(ch: core.Chooser) -> dict:
+        d, m = ch.between(1, 3), ch.between(1, 8)
+        dt = ch.choice(["int64", "uint32", "uint8", "float64"])
+        keys = numpy.array([[ch.below(4) for _ in range(m)] for _ in range(d)], dtype=dt)
+        return {"args": [A(keys, dt)], "kwargs": {"graded": ch.chance(0.5), "reverse": ch.chance(0.5)}}
+
+    _reg("glexsort", g_glexsort, lambda a, k: n.glexsort(a[0], **k), "utils", weight=1)
+
+    def g_glexindex(ch: core.Chooser) -> dict:
+        d = ch.between(1, 3)
+        dt = ch.choice(["int64", "uint32", "uint8"])
+        stop = numpy.array([ch.between(1, 4) for _ in range(d)], dtype=dt)
+        start = numpy.array([ch.below(int(s) + 1) for s in stop], dtype=dt)
+        return {"args": [A(start, dt), A(stop, dt)], "kwargs": {"graded": ch.chance(0.5), "reverse": ch.chance(0.5), "cross_truncation": ch.choice([0.5, 1.0, 2.0, 4.0])}}
+
+    _reg("glexindex", g_glexindex, lambda a, k: n.glexindex(a[0], a[1], **k), "utils", weight=1)
     _reg("variable", lambda ch: {"args": [ch.between(1, 3)], "kwargs": {}}, lambda a, k: n.variable(a[0]), "construct", weight=1)
     _reg("symbols", lambda ch: {"args": [ch.choice(["q0", "q1 q3", "q:3", "q2,q10"])], "kwargs": {}}, lambda a, k: n.symbols(a[0]), "construct", weight=1)
 
